@@ -108,6 +108,10 @@ def _as_kind(arg, kind):
             def __missing__(self, k):
                 return 7
         return Table(arg)
+    if isinstance(arg, str):
+        return "".join(list(arg))       # a fresh object: names read from a file or the command line are never interned
+    if type(arg) is dict:
+        return {("".join(list(k)) if isinstance(k, str) else k): v for k, v in arg.items()}
     return copy.deepcopy(arg)
 
 
@@ -199,7 +203,7 @@ def _op_mut_passed_valid(ctx, model):
 def op_preset(name):
     def f(ctx, model):
         try:
-            p = _SF.get_preset_constraints(name)
+            p = _SF.get_preset_constraints("".join(list(name)))
         except ValueError:
             return "ValueError", ("ValueError" if name not in _PRESETS else "dict")
         ctx["preset"] = p
